@@ -345,6 +345,9 @@ func judgeLines(lines []string, allowed map[string]int, allowDefaults bool) stri
 		if strings.ContainsAny(ln, "\r\n") {
 			return fmt.Sprintf("a raw CR or LF survives inside the line %q", ln)
 		}
+		if strings.IndexByte(ln, 0) >= 0 {
+			return fmt.Sprintf("a raw NUL survives inside the line %q (a strict parser refuses the whole message)", ln)
+		}
 		i := strings.IndexByte(ln, ':')
 		if i <= 0 {
 			return fmt.Sprintf("line without a field name: %q", ln)
@@ -511,7 +514,9 @@ func (w *worker) exec(c *mc.Ctx, cs Case) {
 		start := "POST /p HTTP/1.1"
 		if cs.Proxy {
 			// absolute form with whatever host the application named; what matters is that it is ONE line
-			if i := bytes.Index(sc.Out, []byte("\r\n")); i > 0 && bytes.HasPrefix(sc.Out, []byte("POST ")) && bytes.HasSuffix(sc.Out[:i], []byte(" HTTP/1.1")) && !bytes.ContainsAny(sc.Out[:i], "\r\n") {
+			// ... "method SP target SP version" with no further SP or control byte in the target
+			if i := bytes.Index(sc.Out, []byte("\r\n")); i > 0 && bytes.HasPrefix(sc.Out, []byte("POST ")) && bytes.HasSuffix(sc.Out[:i], []byte(" HTTP/1.1")) && !bytes.ContainsAny(sc.Out[:i], "\r\n") &&
+				bytes.Count(sc.Out[:i], []byte(" ")) == 2 && bytes.IndexFunc(sc.Out[:i], func(r rune) bool { return r < ' ' || r == 0x7f }) < 0 {
 				start = string(sc.Out[:i])
 			}
 			allowed = merge(allowed, map[string]int{"proxy-connection": 1, "proxy-authorization": 1})
